@@ -323,7 +323,28 @@ def r5_file_reads_are_positioned(cx):
     cx.ob("R5", "R5/FileSource-has-no-position-state", names == ["len", "path", "source"], "(struct FileSource)", "FileSource keeps no remembered position besides the file itself: fields %s" % names)
 
 
+def r6_decoder_read_waits_for_what_is_asked(cx):
+    """a stream on a compressed content reads through `SeekableDecoder::read`; `Ok(0)` means "end of the content" to every
+    reader of a stream (`read_to_end`, `io::copy`). The decoder therefore waits (`decode_to`) for the end of the request
+    itself -- `min(offset + buf.len(), total size)` -- and not for some granularity of its own: a bound that does not
+    depend on the length asked can stop exactly at the offset, serve nothing and end the stream early."""
+    F = cx.F
+    f = F.one(impl_self="bases::io::compression::SeekableDecoder", item="read", trait="Source", closure=False)
+    b = F.deep_body(f, only=r"bases::io::compression::SeekableDecoder::(?!decode_to|decoded_slice)")
+    dt = b.calls(r"SeekableDecoder::decode_to$")
+    if len(dt) != 1:
+        raise AnchorLost("SeekableDecoder::read: %d calls of decode_to" % len(dt))
+    o = b.origins(dt[0][1]["args"][1])
+    has_len = any(x[0] == "call" and call_is(b.term(x[1]), r"slice::<impl \[u8\]>::len$|::len$") and ("param", 3) in b.origins(b.term(x[1])["args"][0]) for x in o)
+    has_off = ("param", 2) in o
+    has_total = any(x[0] == "call" and call_is(b.term(x[1]), r"total_size$|::size$") for x in o)
+    consts = sorted(x[1] for x in o if x[0] == "const" and isinstance(x[1], int) and not isinstance(x[1], bool) and x[1] not in (0, 1))
+    cx.ob("R6", "R6/SeekableDecoder.read/waits-for-the-request", has_len and has_off and has_total and not consts, f,
+          "decode_to waits for min(offset + buf.len(), total): depends on the offset (%s), on the length asked (%s), on the total size (%s), on no other constant (%s)" % (has_off, has_len, has_total, consts), ln=dt[0][1].get("ln"))
+
+
 RULES = [
+    ("R6", r6_decoder_read_waits_for_what_is_asked, 1),
     ("R1", r1_cursor, 1),
     ("R2", r2_rebase, 20),
     ("R3", r3_siblings, 8),
